@@ -48,19 +48,28 @@ Proof. vm_compute. split; reflexivity. Qed.
    functions receive exactly the events they receive without pyccolo (each through the same one of its functions), and the handlers see
    the plain event stream of the accepted frames filtered by the subscription - also while no third-party function is installed. *)
 Theorem C09_histories : forall tps sub n g,
-  fst (SysHist.pyc tps sub SysFlags.sys_checks_uninstall SysFlags.sys_wraps_foreign g n) = fst (SysHist.plain tps g n) /\
-  SysHist.third_log (snd (SysHist.pyc tps sub SysFlags.sys_checks_uninstall SysFlags.sys_wraps_foreign g n)) = snd (SysHist.plain tps g n) /\
-  SysHist.handler_log (snd (SysHist.pyc tps sub SysFlags.sys_checks_uninstall SysFlags.sys_wraps_foreign g n)) =
+  fst (SysHist.pyc tps sub SysFlags.sys_checks_uninstall SysFlags.sys_wraps_foreign SysFlags.sys_rebinds_local g n) = fst (SysHist.plain tps g n) /\
+  SysHist.third_log (snd (SysHist.pyc tps sub SysFlags.sys_checks_uninstall SysFlags.sys_wraps_foreign SysFlags.sys_rebinds_local g n)) = snd (SysHist.plain tps g n) /\
+  SysHist.handler_log (snd (SysHist.pyc tps sub SysFlags.sys_checks_uninstall SysFlags.sys_wraps_foreign SysFlags.sys_rebinds_local g n)) =
     filter (fun e => sub (fst e)) (SysHist.events n).
 Proof. intros tps sub n g. exact (SysHistProofs.all_good tps sub n g). Qed.
 Print Assumptions C09_histories.
 
 (* the two repaired defects, kept as checked witnesses (an uninstalled function still called in a running frame: of an accepted file,
    of a file the tracer does not accept) *)
+(* a third party whose local function hands over to another local function (debuggers: until the first line, then the rest) is part
+   of C09_histories (tp_switch); without following the hand-over the first function keeps receiving everything *)
+Theorem C09_no_rebind_refuted :
+  SysHist.third_log (snd (SysHist.pyc SysHistProofs.tp_sw (fun _ => true) true true false (Some 0%nat) SysHistProofs.ex_sw)) <>
+    snd (SysHist.plain SysHistProofs.tp_sw (Some 0%nat) SysHistProofs.ex_sw)
+  /\ snd (SysHist.plain SysHistProofs.tp_sw (Some 0%nat) SysHistProofs.ex_sw) =
+       [(SysHist.WG 0, SysHist.SCall, 1%N); (SysHist.WL 0, SysHist.SLine, 1%N); (SysHist.WL2 0, SysHist.SLine, 1%N); (SysHist.WL2 0, SysHist.SRet, 1%N)].
+Proof. exact SysHistProofs.no_rebind_refuted. Qed.
+Print Assumptions C09_no_rebind_refuted.
 Theorem C09_histories_refuted :
-  SysHist.third_log (snd (SysHist.pyc SysHistProofs.tp_all (fun _ => true) false true (Some 0%nat) (SysHistProofs.ex_hist true))) <>
+  SysHist.third_log (snd (SysHist.pyc SysHistProofs.tp_all (fun _ => true) false true true (Some 0%nat) (SysHistProofs.ex_hist true))) <>
     snd (SysHist.plain SysHistProofs.tp_all (Some 0%nat) (SysHistProofs.ex_hist true)) /\
-  SysHist.third_log (snd (SysHist.pyc SysHistProofs.tp_all (fun _ => true) true false (Some 0%nat) (SysHistProofs.ex_hist false))) <>
+  SysHist.third_log (snd (SysHist.pyc SysHistProofs.tp_all (fun _ => true) true false true (Some 0%nat) (SysHistProofs.ex_hist false))) <>
     snd (SysHist.plain SysHistProofs.tp_all (Some 0%nat) (SysHistProofs.ex_hist false)).
 Proof. exact (conj SysHistProofs.no_uninstall_check_refuted SysHistProofs.raw_foreign_refuted). Qed.
 Print Assumptions C09_histories_refuted.
